@@ -1,6 +1,9 @@
 //! svf — property-based verification harness for facebook/starlark-rust (see /verif/DESIGN.md).
 
+mod astx;
+mod corpus;
 mod engine;
+mod textgen;
 mod sl;
 mod oracle;
 mod props;
@@ -22,6 +25,21 @@ fn main() {
         for p in props::all() {
             println!("{}", p.id());
         }
+        return;
+    }
+    if cmd == "c05-nest" {
+        // exploration helper: parse one nesting-family text on a 16 MiB stack
+        let k: usize = args[2].parse().unwrap();
+        let d: usize = args[3].parse().unwrap();
+        let h = std::thread::Builder::new()
+            .stack_size(engine::WORKER_STACK)
+            .spawn(move || {
+                let src = textgen::nest(textgen::NEST_KINDS[k], d);
+                let pc = props::c05::check_parse(&src, &starlark::syntax::Dialect::AllOptionsInternal, false);
+                println!("{:?} d={d} len={} ok={} problems={:?} depth={}", textgen::NEST_KINDS[k], src.len(), pc.ok, pc.problems, pc.depth);
+            })
+            .unwrap();
+        h.join().unwrap();
         return;
     }
     let id = args.get(2).cloned().unwrap_or_default();
@@ -52,7 +70,8 @@ fn main() {
         }
         "one" => engine::one_main(prop, tier, seed, &args[3], args.iter().any(|a| a == "--strict")),
         "replay" => engine::replay_main(prop, &args[3]),
-        "probes" => engine::probes_main(prop, tier, seed),
+        "render" => engine::render_main(prop, tier, seed, &args[3]),
+        "probe" => engine::probe_main(prop, tier, seed, args[3].clone()),
         _ => {
             eprintln!("unknown command {cmd}");
             2
